@@ -1159,7 +1159,7 @@ Proof.
 Qed.
 
 (* capacity: whenever fewer than max_connections connections are leased (total - idle of them are) and the
-   Requests limit admits one more, a NewStream that can connect succeeds *)
+   Requests limit accepts one more, a NewStream that can connect succeeds *)
 Lemma capacity_available : forall k p send, k_sw k = sw_fixed ->
   can_create k p = true ->
   (k_max_conn k = 0 \/ total p - Z.of_nat (length (idle p)) < k_max_conn k) ->
